@@ -249,3 +249,7 @@ mod tests {
         }
     }
 }
+
+#[cfg(futures_buffered_verif)]
+#[path = "/verif/hooks/merge_bounded.rs"]
+mod verif_hooks;
